@@ -126,3 +126,22 @@ package ingest
 //@   requires o != nil && o.base != nil && o.overlay != nil
 //@   ensures implies(o.overlayOK && (!o.baseOK || o.overlayID.Less(o.baseID)), ref(result) == b6.VerifFeatRef(o.overlay, ghostf("fpos", o.overlay)))
 //@   ensures implies(!o.overlayOK || (o.baseOK && !o.overlayID.Less(o.baseID)), ref(result) == b6.VerifFeatRef(o.base, ghostf("fpos", o.base)))
+
+// ---- C37: what a nil result of the validators guarantees ---------------------------------
+// pathPoints resolves every point or fails; its loop and the s2 geometry checks
+// (LoopFromPoints, Validate, Area: floating point) are outside the verifier: their
+// verdict is respected by the code, nothing is concluded from them.
+//@ func pathPoints
+//@   requires f != nil && byID != nil
+//@   loop 1 invariant len(points) == f.GeometryLen() && i >= 0
+//@   ensures implies(result1 == nil, len(result0) == f.GeometryLen())
+//@ func invertPoints
+//@   havoc
+
+//@ func ValidatePathForArea
+//@   requires p != nil
+//@   ensures implies(result == nil, p.GeometryLen() >= 3 && p.PointAt(0) == p.PointAt(p.GeometryLen()-1))
+
+//@ func ValidatePath
+//@   requires o != nil && features != nil
+//@   ensures implies(result == nil, p != nil && p.FeatureID().IsValid() && p.GeometryLen() >= 2)
